@@ -89,7 +89,7 @@ TEXT = {
     },
     "C12": {
         "technique": "Verus: the closed forms re-verified at Dual and Dual2 against bin1_post/bin2_post with the formula's true partial derivatives (composition of the verified operator contracts)",
-        "level_text": "Proof (partial scope): the linear rule at Dual and Dual2 returns value = formula, gradient = (1-w)*grad(y1) + w*grad(y2), stored half-Hessian likewise with zero second-order terms, names = union of the two nodes' names -- i.e. exact sensitivities to the two nodes used and zero to all others.",
+        "level_text": "Proof (partial scope): CurveDF::set_ad_order (all nine arms, body extracted each run) keeps keys, their order and every node value, leaves the curve untouched when the order is unchanged, tags node i of a float curve with the i-th variable tag at unit sensitivity (zero Hessian) and keeps names on One<->Two switches; value preservation is transitive, hence an invariant of any switch history; index_value is Err without a base, 0 before the first node, else base / looked-up value; the linear rule at Dual and Dual2 returns the formula's value with gradient (1-w)*grad(y1) + w*grad(y2) and the matching half-Hessian (exact sensitivities to the two nodes used, zero to all others).",
         "level_note": "Partial: see coverage.uncovered_subclaims in the evidence for the rules / operations not yet under contract.",
         "design_ref": "DESIGN.md §7 C12",
     },
